@@ -691,10 +691,11 @@ pub fn run(tier: Tier) -> Report {
 
     one_step_sweep(&rep, tier);
     long_range_sweep(&rep, tier);
+    unmerged_histories(&rep, tier, &ops);
 
     rep.set_rule(
         "BFS to fixpoint over the reader's exact state (bytes pulled, buffer length, bit offset, grown?, and the ring buffer's physical layout: capacity and first-slice length) for every source; every operation of the alphabet applied in every state, every step compared with a bit-vector model, a drain probe at every new state; \
-         plus a one-step sweep of all two-byte sources x offsets x widths x types; plus a long-range sweep (one skip of 2^k + d bits, k = 3..25 (thorough 28), d = -9..9, from bit offsets 0, 3 and 8 of a multi-megabyte source, then reads of several widths in four orders and the exact reader state, or the same inside a transaction that fails and must leave the reader where it started; and skips beyond the end of the source up to u32::MAX); non-trivial transition = transaction/union/look-ahead/grow, or any step ending off a byte boundary",
+         plus every history of 4 (thorough 5) operations over a reduced alphabet without state merging, with a drain probe at the end; plus a one-step sweep of all two-byte sources x offsets x widths x types; plus a long-range sweep (one skip of 2^k + d bits, k = 3..25 (thorough 28), d = -9..9, from bit offsets 0, 3 and 8 of a multi-megabyte source, then reads of several widths in four orders and the exact reader state, or the same inside a transaction that fails and must leave the reader where it started; and skips beyond the end of the source up to u32::MAX); non-trivial transition = transaction/union/look-ahead/grow, or any step ending off a byte boundary",
     );
     rep.sample(json!({"source": "00 80 a5", "history": ["read_bits::<u32>(1)", "commit", "with_transaction{read 17 bits; fail}", "read_u8"]}));
     rep.sample(json!({"source": "ff 80 00 40 12", "history": ["skip_bits(7)", "recognize_start_code(false) -> Some(2)"]}));
@@ -780,6 +781,58 @@ fn one_step_sweep(rep: &Report, tier: Tier) {
     rep.add_transitions(n);
     rep.add_states(65536 * offsets.len() as u64);
     rep.extra("one_step_sweep_operations", json!(n));
+}
+
+/// Bounded history search without state merging: every sequence of 4 (thorough 5) operations of a
+/// reduced alphabet on a few sources, each with a drain probe at the end. The BFS above merges
+/// reader states on the hooked key; this part covers state the key cannot see.
+fn unmerged_histories(rep: &Report, tier: Tier, ops: &[Op]) {
+    let keep_prims = [Prim::Read32(1), Prim::Read32(7), Prim::Read32(9), Prim::Read32(17), Prim::Peek32(16), Prim::Skip(2), Prim::Skip(8), Prim::Signed16(9), Prim::ReadU8, Prim::Sc(false), Prim::Sc(true), Prim::Commit];
+    let mut red: Vec<usize> = ops.iter().enumerate().filter(|(_, o)| matches!(o, Op::P(p) if keep_prims.contains(p))).map(|(i, _)| i).collect();
+    // transactions / unions / look-aheads with the single-primitive bodies "read 7" and "VLC", and Grow
+    for (i, o) in ops.iter().enumerate() {
+        let single = |b: &Vec<Item>| b.len() == 1 && matches!(b[0], Item::P(Prim::Read32(7)) | Item::P(Prim::Vlc(0)));
+        match o {
+            Op::Tx(b, _) | Op::Look(b) if single(b) => red.push(i),
+            Op::Union(b, m) if single(b) && *m != 0 => red.push(i),
+            Op::Grow => red.push(i),
+            _ => {}
+        }
+    }
+    let depth = if tier.thorough() { 5 } else { 4 };
+    let srcs: Vec<(Vec<u8>, usize)> = vec![
+        (vec![0xA5, 0x3C, 0x96, 0x0F, 0xF0, 0x69, 0xC3, 0x5A, 0x81, 0x7E, 0x24, 0xDB], 12),
+        (vec![0xFF, 0x00, 0x00, 0x80, 0x12, 0x34, 0x56, 0x78, 0x9A, 0x00, 0x00, 0x80, 0x01], 5),
+        (vec![0x00, 0x00, 0x80, 0xA5], 2),
+    ];
+    let n = red.len();
+    let total = n.pow(depth as u32);
+    let mut steps = 0u64;
+    for (data, avail) in &srcs {
+        let bits = bits_of(data);
+        (0..total).into_par_iter().for_each(|code| {
+            let h = Harness { data, bits: &bits, initial_avail: *avail, tabs: tables() };
+            let mut idx = Vec::with_capacity(depth);
+            let mut c = code;
+            for _ in 0..depth {
+                idx.push(red[c % n]);
+                c /= n;
+            }
+            if *avail == data.len() && idx.iter().any(|i| matches!(ops[*i], Op::Grow)) {
+                return;
+            }
+            let opsref: Vec<&Op> = idx.iter().map(|i| &ops[*i]).collect();
+            if let Err(e) = h.run(&opsref, true) {
+                report(rep, data, *avail, &opsref, &e, &idx, tier.thorough());
+            }
+        });
+        steps += (total * depth) as u64;
+    }
+    rep.add_transitions(steps);
+    rep.add_states(steps / depth as u64);
+    rep.extra("unmerged_history_steps", json!(steps));
+    rep.extra("unmerged_history_alphabet", json!(n));
+    rep.extra("reader_object_size", json!(H263Reader::<&[u8]>::verif_object_size()));
 }
 
 /// byte `i` of the long pseudo-random source
